@@ -146,11 +146,11 @@ theorem upd_frame (cs : CState) (xs : SCode) (lm : LM) :
     (upd cs xs lm).currFn = cs.currFn ∧ (upd cs xs lm).currModule = cs.currModule ∧
     (upd cs xs lm).loops = cs.loops ∧ (upd cs xs lm).varMangle = cs.varMangle ∧
     (upd cs xs lm).scopes = cs.scopes ∧ (upd cs xs lm).lambdaCount = cs.lambdaCount ∧
-    (upd cs xs lm).unsupported = cs.unsupported ∧
+    (upd cs xs lm).unsupported = cs.unsupported ∧ (upd cs xs lm).tryDepth = cs.tryDepth ∧
     (∀ f, cs.fns.lookup (cs.currModule, cs.currFn) = some f →
       (upd cs xs lm).fns.lookup (cs.currModule, cs.currFn) = some { f with code := f.code ++ xs }) ∧
     (∀ key, key ≠ (cs.currModule, cs.currFn) → (upd cs xs lm).fns.lookup key = cs.fns.lookup key) :=
-  ⟨rfl, rfl, rfl, rfl, rfl, rfl, rfl, fun f hf => appendCode_lookup cs xs f hf,
+  ⟨rfl, rfl, rfl, rfl, rfl, rfl, rfl, rfl, fun f hf => appendCode_lookup cs xs f hf,
    fun key hk => appendCode_lookup_other cs xs key hk⟩
 
 theorem bind_run {α β} (a : C α) (b : α → C β) (cs cs1 : CState) (x : α) (r : β × CState)
